@@ -435,6 +435,8 @@ PROPS['C08']['required_theorems'] += ['gen_object_conversions', 'gen_missing_con
 PROPS['C12']['required_theorems'] += ['gen_dec', 'gen_add', 'gen_radd', 'gen_sub', 'gen_rsub', 'gen_mul', 'gen_rmul', 'gen_truediv', 'gen_abs',
                                       'gen_neg', 'gen_eq', 'gen_ne', 'gen_lt', 'gen_gt', 'gen_round', 'gen_toInt', 'gen_toFloat',
                                       'gen_mod_dms', 'gen_mod_ddm', 'gen_add_sub_dec', 'gen_cmp_dec']
+PROPS['C01']['more_proof_modules'] = list(PROPS['C01'].get('more_proof_modules', [])) + ['GeodeVerif.Proofs.C01c']
+PROPS['C01']['required_theorems'] += ['confLat_sphere', 'alpha_sphere', 'rect_radius_sphere', 'tm_sphere', 'geo2grid_sphere', 'sphere_tm_is_exact']
 PROPS['C04']['more_proof_modules'] = list(PROPS['C04'].get('more_proof_modules', [])) + ['GeodeVerif.Proofs.C04b']
 PROPS['C04']['required_theorems'] += ['sphere_loop', 'vincdir_sphere', 'vincdir_sphere_end_point']
 PROPS['C05']['more_proof_modules'] = list(PROPS['C05'].get('more_proof_modules', [])) + ['GeodeVerif.Proofs.C05b']
